@@ -971,6 +971,71 @@ func OtherFeatures(names []string) []Feature {
 			}
 		})
 	}
+	for _, cx := range []string{"simple", "complex"} {
+		cx := cx
+		add("collidingImportReferrersAtTwoDepthsOfTakenInlines["+cx+"]", "collide-names", func(b *BundleSpec, s int) {
+			// three referrers of one colliding import at two depths of an inline schema; the names generated for both inline
+			// levels exist already: two nested OAIGen definitions hold the parents of a third one
+			var aux J = J{"type": "string", "description": "auxRig"}
+			if cx == "complex" {
+				aux = simpleObj("auxRig")
+			}
+			ref := J{"$ref": AuxA + "#/definitions/rig"}
+			b.Add(RootFile, P(simpleObj("rootRig"), "definitions", "rig"), P(simpleObj("pre"), "definitions", "rigHolderP"), P(simpleObj("pre2"), "definitions", "rigHolderPIn"),
+				P(J{"type": "object", "properties": J{"p": J{"type": "object", "properties": J{"a": ref, "in": J{"type": "object", "properties": J{"b": ref, "b2": ref}}}}}}, "definitions", "rigHolder"))
+			b.Add(AuxA, P(aux, "definitions", "rig"))
+			for _, n := range []string{"rig", "rigHolderP", "rigHolderPIn", "rigHolder"} {
+				b.use(n)
+			}
+		})
+	}
+	// more arrangements of referrers of colliding imports inside inline schemas whose generated names are taken
+	for _, cx := range []string{"simple", "complex"} {
+		cx := cx
+		auxBody := func(tag string) J {
+			if cx == "complex" {
+				return simpleObj(tag)
+			}
+			return J{"type": "string", "description": tag}
+		}
+		add("takenInlines[twoImports,"+cx+"]", "collide-names", func(b *BundleSpec, s int) {
+			ra, rb := J{"$ref": AuxA + "#/definitions/cog"}, J{"$ref": AuxB + "#/definitions/cog"}
+			b.Add(RootFile, P(simpleObj("rootCog"), "definitions", "cog"), P(simpleObj("pre"), "definitions", "cogHolderP"),
+				P(J{"type": "object", "properties": J{"p": J{"type": "object", "properties": J{"a": ra, "a2": ra, "b": rb, "b2": rb}}}}, "definitions", "cogHolder"))
+			b.Add(AuxA, P(auxBody("auxCogA"), "definitions", "cog"))
+			b.Add(AuxB, P(auxBody("auxCogB"), "definitions", "cog"))
+			for _, n := range []string{"cog", "cogHolderP", "cogHolder"} {
+				b.use(n)
+			}
+		})
+		add("takenInlines[threeLevels,"+cx+"]", "collide-names", func(b *BundleSpec, s int) {
+			r := J{"$ref": AuxA + "#/definitions/cog"}
+			b.Add(RootFile, P(simpleObj("rootCog"), "definitions", "cog"), P(simpleObj("pre"), "definitions", "cogHolderP"), P(simpleObj("pre2"), "definitions", "cogHolderPIn"), P(simpleObj("pre3"), "definitions", "cogHolderPInIn"),
+				P(J{"type": "object", "properties": J{"p": J{"type": "object", "properties": J{"a": r, "in": J{"type": "object", "properties": J{"b": r, "in": J{"type": "object", "properties": J{"c": r, "c2": r}}}}}}}}, "definitions", "cogHolder"))
+			b.Add(AuxA, P(auxBody("auxCog"), "definitions", "cog"))
+			for _, n := range []string{"cog", "cogHolderP", "cogHolderPIn", "cogHolderPInIn", "cogHolder"} {
+				b.use(n)
+			}
+		})
+		add("takenInlines[siblings,"+cx+"]", "collide-names", func(b *BundleSpec, s int) {
+			r := J{"$ref": AuxA + "#/definitions/cog"}
+			b.Add(RootFile, P(simpleObj("rootCog"), "definitions", "cog"), P(simpleObj("pre"), "definitions", "cogHolderP"), P(simpleObj("pre2"), "definitions", "cogHolderQ"),
+				P(J{"type": "object", "properties": J{"p": J{"type": "object", "properties": J{"a": r}}, "q": J{"type": "object", "properties": J{"b": r, "b2": r}}}}, "definitions", "cogHolder"))
+			b.Add(AuxA, P(auxBody("auxCog"), "definitions", "cog"))
+			for _, n := range []string{"cog", "cogHolderP", "cogHolderQ", "cogHolder"} {
+				b.use(n)
+			}
+		})
+		add("takenInlines[underResponse,"+cx+"]", "collide-names", func(b *BundleSpec, s int) {
+			r := J{"$ref": AuxA + "#/definitions/cog"}
+			b.Add(RootFile, P(simpleObj("rootCog"), "definitions", "cog"), P(simpleObj("pre"), "definitions", "getPCreatedBody"), P(simpleObj("pre2"), "definitions", "getPCreatedBodyIn"),
+				P(J{"description": "inline with taken names", "schema": J{"type": "object", "properties": J{"a": r, "in": J{"type": "object", "properties": J{"b": r, "b2": r}}}}}, "paths", BasePath, "get", "responses", "201"))
+			b.Add(AuxA, P(auxBody("auxCog"), "definitions", "cog"))
+			for _, n := range []string{"cog", "getPCreatedBody", "getPCreatedBodyIn"} {
+				b.use(n)
+			}
+		})
+	}
 	add("twoInlineSameGeneratedName", "collide-names", func(b *BundleSpec, s int) {
 		b.Add(RootFile, P(J{"type": "object", "properties": J{"home_address": simpleObj("inl1")}}, "definitions", "member"),
 			P(J{"type": "object", "properties": J{"address": simpleObj("inl2")}}, "definitions", "member_home"))
